@@ -127,10 +127,14 @@ class Recorder:
         f = float(f)
         g = self.goodness(f)
         sentinel = math.isinf(f) and ((f < 0) == self.maximize)
-        if sentinel:
+        if sentinel and self.refused > 0:
+            tru = 2                       # once a budget wrapper refuses, the worst infinity is the documented sentinel
+        elif self.truth(ind.genome) == f:
+            tru = 1                       # (an objective may itself return the worst infinity)
+        elif sentinel:
             tru = 2
         else:
-            tru = int(self.truth(ind.genome) == f)
+            tru = 0
         self.good.add(g)
         return [self.gid(ind.genome), ("G", g), self.inbox(ind.genome), tru]
 
